@@ -185,6 +185,8 @@ const staticText = `%\000\002,192.0.2.0/24,c\000
 %\000\001,::/0,ec
 Mexample.com,c\000
 8example.com,ec
+Mgeo.example.com,c\000
+8geo.example.com,ec
 &example.com,,a.ns.example.com,172800,,
 &sub.example.com,,ns.sub.example.com,300,,
 `
